@@ -6,6 +6,10 @@ ROOT = os.path.dirname(os.path.dirname(os.path.abspath(__file__)))
 
 # id -> (level category, level text, level note, technique, design ref)
 CHECKS = {
+ "C03": ("exploration",
+   "1.2e3 / 2e4 generated histories of 30 Interface calls (pushes, composite chunked uploads with resume, mounts, manifests incl. 127/128/128+1 KiB ones read back by tag, deletes, reads, ranges, listings with start points; repositories and tags named after routing words) run on twin registries: ocimem directly and ociclient->ociserver(->second hop)->recording ocimem, cycling through all 16 server option sets x {1,2} hops x 4 ocidebug placements, in-process transport with a loopback share. Per call: outcome differential (success, code or HEAD status class, descriptor, bytes, listings), every recorded backend call explained by the client call (method within the translation, repository, reference, bytes, media type, range, start point/continuation), failing calls report one of the codes B's own backend returned.",
+   "Trusted: the twin ocimem as reference; rec as the observation point. Content-free repositories may be unknown or empty on either side; blob media types and MountBlob's size are not carried by the wire; empty ranges and size-lying/invalid-digest pushes are outside the wire's domain.",
+   "runtime monitor: twin-registry differential + recording backend behind the server", "3/C03"),
  "C05": ("exploration",
    "1.5e4 / 3e5 listings (Repositories, Tags, Referrers) over stacks drawn from {mem | unify(mem,mem)} + up to 4 layers of {http(page size in 1,2,3,5,1000; server max page; Link on/off; in-process or loopback), debug, select, sub}, item sets sized around multiples of the page size, start points absent / element / just before / just after / before first / beyond last / URL metacharacters, early-stopping consumers, and injected faults (k-th request fails, a member iterator fails after j items). Expected listing = sorted, de-duplicated set the harness itself stored, seen through the wrapper's view; a yield monitor flags calls after stop/error; runaway pagination is capped and reported.",
    "Trusted: the harness's own record of what it stored. A client page size above the server's MaxListPageSize is a legitimate refusal. Under a fault the items must be a prefix and a shortened result must carry an error.",
